@@ -37,7 +37,12 @@ def opclass(a):
 
 # ------------------------------------------------------------------ field
 def strat_field(tier):
-    return st.fixed_dictionaries({"a": elem(), "b": elem(), "c": elem(), "e": st.integers(1, 12)})
+    # exponents as used by the ssss variant (the threshold k, up to the hundreds) and bases as used there (share indexes: small integers);
+    # small base ** power of two is where a product first reaches degree exactly 128
+    return st.fixed_dictionaries({"a": st.one_of(elem(), elem(), st.integers(0, 300), st.sampled_from([2, 3, 4, 5, 16, 17, 256, 257, 1 << 64, (1 << 64) + 1, 1 << 127])),
+                                  "b": elem(), "c": elem(),
+                                  # (exponent >= 1: _Element.__pow__ is a private helper that the library only calls with the threshold k >= 2; x**0 is outside its domain)
+                                  "e": st.one_of(st.integers(1, 12), st.integers(1, 300), st.sampled_from([1, 2, 16, 31, 32, 33, 63, 64, 65, 127, 128, 129, 255, 256]))})
 
 
 def run_field(case, rec):
@@ -96,8 +101,8 @@ def strat_split(draw, tier):
     big = draw(st.integers(0, 19)) == 0
     if big:
         # many shares / high share indexes: products of k index elements reach degree >= 128 (reduction really needed) from k ~ 16 upwards
-        n = draw(st.sampled_from([40, 64, 128, 255, 255, 1000 if tier != "quick" else 255]))
-        k = min(n, draw(st.sampled_from([2, 3, 6, 16, 20, 24, 27, 33, 40])))
+        n = draw(st.sampled_from([40, 64, 128, 255, 255, 300, 1000 if tier != "quick" else 255]))
+        k = min(n, draw(st.sampled_from([2, 3, 6, 16, 20, 24, 27, 32, 32, 33, 40, 64, 128])))
     else:
         n = draw(st.integers(2, nmax))
         k = draw(st.integers(2, min(n, 12)))
@@ -284,7 +289,7 @@ def run_secrecy(case, rec):
 
 
 CHECKS = [
-    Check("field", run=run_field, strategy=strat_field, examples=(3000, 60000), shards=(4, 16),
+    Check("field", run=run_field, strategy=strat_field, examples=(3000, 60000), shards=(8, 16),
           rule="field: _Element * + inverse ** encode vs reference and field laws"),
     Check("split_combine", run=run_split, strategy=strat_split, examples=(320, 6000), shards=(8, 16),
           rule="split with injected coefficient tape == reference polynomial evaluation; combine(any k-subset, any order) == secret"),
